@@ -578,10 +578,17 @@ def _jvp(t, tang, memo):
         r = ZERO
     elif op == "f":
         items = []
-        for v, p in PARTIALS.get(t.uid, {}).items():
-            dv = _jvp(v, tang, memo)
-            if dv is not ZERO:
-                items.append((Fraction(1), _mul([(p, 1), (dv, 1)])))
+        P = PARTIALS.get(t.uid, {})
+        if isinstance(P, dict):
+            for v, p in P.items():
+                dv = _jvp(v, tang, memo)
+                if dv is not ZERO:
+                    items.append((Fraction(1), _mul([(p, 1), (dv, 1)])))
+        else:  # lazily generated jet atoms (contracts/subsys.py)
+            for v in P.deps:
+                dv = _jvp(v, tang, memo)
+                if dv is not ZERO:
+                    items.append((Fraction(1), _mul([(P.partial(v), 1), (dv, 1)])))
         r = _add(items)
     elif op == "+":
         r = _add([(c, _jvp(s, tang, memo)) for c, s in t.a[1]])
@@ -695,6 +702,101 @@ def evalb(b: SymBool, env, tol=0.0, memo=None):
     if op == "eq":
         return abs(v) <= abs(tol)
     raise KitError(op)
+
+
+# ------------------------------------------------- clearing of denominators
+def numden(t, memo=None):
+    """t == num / prod(base^e for base,e in den.items()), num and bases free of
+    negative exponents at polynomial level (sqrt/trig/uf nodes are opaque atoms).
+    Sound wherever every base is nonzero (the logged safe-div obligations)."""
+    if memo is None:
+        memo = {}
+    return _numden(_coerce(t), memo)
+
+
+def _den_mul(d1, d2):
+    out = dict(d1)
+    for b, e in d2.items():
+        out[b] = out.get(b, 0) + e
+    return out
+
+
+def _den_term(d):
+    return _mul(list(d.items())) if d else ONE
+
+
+def _numden(t, memo):
+    r = memo.get(t)
+    if r is not None:
+        return r
+    op = t.op
+    if op == "*":
+        num = [ONE]
+        den = {}
+        nums = []
+        for b, e in t.a:
+            nb, db = _numden(b, memo)
+            if e > 0:
+                nums.append((nb, e))
+                for bb, ee in db.items():
+                    den[bb] = den.get(bb, 0) + ee * e
+            else:
+                k = -e
+                # 1 / (nb/prod db)^k = prod db^k / nb^k
+                for bb, ee in db.items():
+                    nums.append((bb, ee * k))
+                # split nb into factors
+                stack = [(nb, k)]
+                while stack:
+                    x, kk = stack.pop()
+                    if x.op == "*":
+                        for b2, e2 in x.a:
+                            stack.append((b2, e2 * kk))
+                    elif x.op == "+" and x.a[0] == 0 and len(x.a[1]) == 1:
+                        c2, t2 = x.a[1][0]
+                        nums.append((const(Fraction(1) / c2), kk))
+                        stack.append((t2, kk))
+                    elif x.op == "c":
+                        nums.append((const(Fraction(1) / x.a), kk))
+                    else:
+                        den[x] = den.get(x, 0) + kk
+        n = _mul(nums)
+        # cancel common factors between numerator product and denominator
+        r = (n, {b: e for b, e in den.items() if e})
+    elif op == "+":
+        parts = [(c, _numden(x, memo)) for c, x in t.a[1]]
+        lcd = {}
+        for _, (_, d) in parts:
+            for b, e in d.items():
+                if lcd.get(b, 0) < e:
+                    lcd[b] = e
+        items = [(Fraction(1), _mul([(const(t.a[0]), 1)] + list(lcd.items())))] if t.a[0] != 0 else []
+        for c, (n, d) in parts:
+            rest = [(b, e - d.get(b, 0)) for b, e in lcd.items() if e - d.get(b, 0)]
+            items.append((c, _mul([(n, 1)] + rest)))
+        r = (_add(items), lcd)
+    else:
+        r = (t, {})
+    memo[t] = r
+    return r
+
+
+def has_division(t):
+    seen = set()
+    stack = [t]
+    while stack:
+        x = stack.pop()
+        if x in seen:
+            continue
+        seen.add(x)
+        if x.op == "*":
+            for b, e in x.a:
+                if e < 0:
+                    return True
+                stack.append(b)
+        elif x.op == "+":
+            stack.extend(y for _, y in x.a[1])
+    return False
 
 
 # ------------------------------------------------------------- substitution
